@@ -202,6 +202,17 @@ def finding_key(spec, a, obs):
     return None
 
 
+def fixed_deviation(ctx, spec, a, model_out):
+    """the deviation the model predicts for this input is a finding with status "fixed" in known_findings.json"""
+    as_obs = {"ACCEPT": "SOLVED", "UNSOLVED": "UNSOLVED", "Crash": "NetworkXError"}.get(model_out, model_out)
+    key = finding_key(spec, a, as_obs)
+    if key is None and model_out == "ACCEPT":
+        key = finding_key(spec, a, "UNSOLVED")
+    if key is None:
+        return False
+    return any(k.get("property") == ctx.pid and k.get("key") == key and k.get("status") == "fixed" for k in ctx.known)
+
+
 # ------------------------------------------------------------------------------------------ cases
 def applicable(cls, v, spec):
     """is violation kind v a violation of the DOCUMENTED domain of cls for this input?"""
@@ -323,6 +334,10 @@ def check_case(ctx, stream, cls, idx, viols, spec, a, req, out, r):
     # (2) correspondence with the faithful model
     if agrees(model_out, obs, is_fooled(spec, a)):
         ctx.count("E3_validate", "agreements")
+    elif not failed and fixed_deviation(ctx, spec, a, model_out):
+        # the model still describes a deviation whose known_findings entry is marked "fixed" (its repair has been applied to
+        # /repo), and the property holds on this case: the implementation is now stricter than the faithful model of the old code
+        ctx.count("E3_validate", "agreements_with_fixed_finding")
     else:
         ctx.count("E3_validate", "disagreements")
         # the property was evaluated on this very input above; if it held, no failing input is known
